@@ -196,6 +196,28 @@ fn record(args: &[String]) {
             doc.objects.insert((last + 1, 0), Object::Stream(lopdf::Stream::new(d, gen::long_bytes(&mut rng, c * 16 + (case as usize % 3)))));
             doc.max_id = last + 1;
         }
+        // keys and type names that mean something to the writer, in ordinary objects: a dictionary is the
+        // linearization parameter dictionary (not written again) only if it has /Linearized and NO /Type entry;
+        // with a /Type entry of any kind - a name, or the legal indirect spelling, or a value of another kind - it
+        // is an object of the document like any other.  Every fourth document has one.
+        if case % 4 == 1 {
+            let last = doc.objects.keys().map(|k| k.0).max().unwrap_or(0).max(doc.max_id) + 1;
+            let ty = match (case / 4) % 6 {
+                0 => Object::Name(b"Catalog".to_vec()),
+                1 => Object::Name(b"Linearized".to_vec()),
+                2 => Object::Reference((last + 1, 0)),
+                3 => Object::Integer(1),
+                4 => Object::string_literal("XRef"),
+                _ => Object::Array(vec![Object::Name(b"ObjStm".to_vec())]),
+            };
+            let mut d = lopdf::Dictionary::new();
+            d.set("Linearized", Object::Integer(1));
+            d.set("Type", ty);
+            d.set("L", Object::Integer(case as i64));
+            doc.objects.insert((last, 0), Object::Dictionary(d));
+            doc.objects.insert((last + 1, 0), Object::Name(b"XRef".to_vec()));
+            doc.max_id = last + 1;
+        }
         // objects stored with set_object / direct inserts do not maintain max_id: every seventh document has a stale one
         if case % 7 == 4 {
             doc.max_id = rng.below(doc.max_id as usize + 1) as u32;
